@@ -85,11 +85,13 @@ pub fn sys_write<S: Src>(s: &mut S) {
     s.assume(len <= LEN_MAX && buf <= 0xffffff);
     s.assume(len == 0 || (mem::plain_mem(buf) && mem::plain_mem(buf + len - 1) && mem::disjoint(buf, len, arg, 12) && c.code_disjoint(buf, len)));
     s.assume(rm::valid_utf8_4(&data, len as usize));
-    let mut blk = [0u8; 12];
-    blk[0..4].copy_from_slice(&fd.to_be_bytes());
-    blk[4..8].copy_from_slice(&buf.to_be_bytes());
-    blk[8..12].copy_from_slice(&len.to_be_bytes());
-    c.window(0, arg, &blk);
+    // the 12-byte argument block as three 4-byte windows (keeps every harness loop <= 8 iterations)
+    let w_fd = fd.to_be_bytes();
+    let w_buf = buf.to_be_bytes();
+    let w_len = len.to_be_bytes();
+    c.window(0, arg, &w_fd);
+    c.window(2, arg + 4, &w_buf);
+    c.window(3, arg + 8, &w_len);
     mem::set_window_len(&mut c.cpu, 1, buf, &data, len);
     attach_capture(&mut c.cpu);
     let r = c.step();
@@ -97,13 +99,10 @@ pub fn sys_write<S: Src>(s: &mut S) {
     let mut e = c.expect();
     e.pc = c.pc0 + 2;
     let mut a = c.compare(&r, &e);
-    let mut i = 0;
-    while i < 12 {
-        if mem::win_byte(&c.cpu, 0, i) != blk[i] {
-            a.mem = false;
-        }
-        i += 1;
+    if mem::win_be32(&c.cpu, 0, 0) != fd || mem::win_be32(&c.cpu, 2, 0) != buf || mem::win_be32(&c.cpu, 3, 0) != len {
+        a.mem = false;
     }
+    let mut i = 0;
     let (cnt, olen) = unsafe { (OUT_COUNT, OUT_LEN) };
     let mut ok_text = cnt == 1 && olen == len as usize;
     i = 0;
